@@ -20,7 +20,9 @@ RULE = ("(1) exhaustive introspection: every object of pdpy11.insns.instructions
         "with symbols/labels named exactly ac0..ac5 (both cases, defined before/after/as label) in every operand position of CPU "
         "instructions, branches, inline numbers (ordinary symbol: Spec.token_acc), FP11 instructions (accumulator, shadowing the symbol) "
         "and .word/.byte (value) and a "
-        "`.repeat N { insn }` stream with compound index expressions (a+b(Rn), @a+b(Rn), -a(Rn), ^Cx(Rn)) where every copy is judged; quick tier: each form of each position once with a seeded partner, "
+        "`.repeat N { insn }` stream with compound index expressions (a+b(Rn), @a+b(Rn), -a(Rn), ^Cx(Rn)) where every copy is judged, and address-dependent operands inside .repeat (relative, @relative, branch, sob to labels outside the "
+        "block before/after it, absolute numbers, symbols, .+-k; counts 2..4, nested .repeat, a nop before the instruction, a body whose "
+        "length varies between copies through .even) where every copy is judged at the address its bytes occupy in the image; quick tier: each form of each position once with a seeded partner, "
         "thorough tier: full cross product of the canonical spellings for two-operand mnemonics. "
         "Each case carries the implementation's outcome and words; Coq judges correspondence (model = implementation) and the "
         "property (Spec.decode of the implementation's words = Spec.expect of the line, all words consumed; a line without "
@@ -301,6 +303,115 @@ def repeat_cases(intro, rng, tier):
     return cases
 
 
+# address-dependent operands inside .repeat: every copy is judged at the address where its bytes lie in the image
+REPEAT_ATOMS = [("clr", "R"), ("tst", "@R"), ("jmp", "R"), ("mov", "R,r"), ("mov", "#,R"), ("mov", "r,@R"), ("cmp", "R,R"), ("add", "X,@R"),
+                ("jsr", "reg,R"), ("xor", "reg,@R"), ("mul", "R,reg"), ("ldf", "R,ac"), ("stf", "ac,@R"), ("tstf", "R"), ("ldexp", "R,ac"),
+                ("push", "R"), ("pop", "@R"), ("call", "R"), ("br", "B"), ("bne", "B"), ("bcs", "B"), ("blos", "B"), ("sob", "reg,B")]
+REPEAT_BODIES = ["plain", "nop-before", "even-varying", "nested", "nested-nop"]
+
+
+def repeat_positions(body, p, n, m2, ilen):
+    """image offsets of the copies of the instruction, and the offset just behind the block"""
+    pos, out = p, []
+    if body == "plain":
+        out = [p + j * ilen for j in range(n)]
+        pos = p + n * ilen
+    elif body == "nop-before":
+        out = [p + j * (ilen + 2) + 2 for j in range(n)]
+        pos = p + n * (ilen + 2)
+    elif body == "even-varying":        # .even / insn / .byte 1, 2, 3 : copies after the first start at an odd address
+        for _ in range(n):
+            pos += pos % 2
+            out.append(pos)
+            pos += ilen + 3
+    elif body == "nested":
+        out = [p + (j * m2 + i) * ilen for j in range(n) for i in range(m2)]
+        pos = p + n * m2 * ilen
+    elif body == "nested-nop":
+        out = [p + j * (2 + m2 * ilen) + 2 + i * ilen for j in range(n) for i in range(m2)]
+        pos = p + n * (2 + m2 * ilen)
+    return out, pos
+
+
+def repeat_addr_cases(intro, rng, tier):
+    by = {n: st for n, _p, st in intro}
+    cases = []
+    per = 2 if tier == "quick" else 10
+    for m, shape in REPEAT_ATOMS:
+        if m not in by:
+            continue
+        stubs = by[m]
+        for body in REPEAT_BODIES:
+            for _ in range(per):
+                base = rng.choice([0o1000, 0o2000, 0o400, 0o100000])
+                link = rng.random() < 0.7
+                if not link:
+                    base = 0o1000
+                p = rng.choice([2, 4, 10, 40])
+                n = rng.choice([2, 3, 4])
+                m2 = rng.choice([2, 3])
+                parts = shape.split(",")
+                nwords = 1 + sum(1 for q in parts if q in ("R", "@R", "#", "X"))
+                ilen = 2 * nwords
+                offs, end = repeat_positions(body, p, n, m2, ilen)
+                end += end % 2
+                total = end + 2
+                out2 = base + end
+                # per-operand: text and a function copy address -> abstract operand
+                texts, mk = [], []
+                for q in parts:
+                    if q in ("R", "@R", "B"):
+                        sp = rng.choice(["out1", "out1+k", "out2", "abs", "dot", "sym"] if q != "B" else ["out1", "out1+k", "out2", "dot", "sym"])
+                        if m == "sob" and sp == "out2":
+                            sp = "out1"
+                        ctor = "ORelDef" if q == "@R" else "ORel"
+                        at = "@" if q == "@R" else ""
+                        if sp == "out1":
+                            texts.append(at + "out1"); mk.append(lambda a, c=ctor, t=base: (c, t))
+                        elif sp == "out1+k":
+                            k = rng.choice([2, -2, 6]) if q == "B" else rng.choice([2, -2, 0o100, 1])
+                            texts.append(at + "out1" + ("+%s" % IC.num(k) if k > 0 else "-%s" % IC.num(-k))); mk.append(lambda a, c=ctor, t=base + k: (c, t))
+                        elif sp == "out2":
+                            texts.append(at + "out2"); mk.append(lambda a, c=ctor, t=out2: (c, t))
+                        elif sp == "abs":
+                            t = rng.choice([0o100, 0o60, 0o177716, 0, 0o2002])
+                            texts.append(at + IC.octnum(t)); mk.append(lambda a, c=ctor, t=t: (c, t))
+                        elif sp == "sym":
+                            t = base + rng.choice([0, 2]) if q == "B" else rng.choice([0o100, 0o177776, base + 6])
+                            texts.append(at + "far"); mk.append(lambda a, c=ctor, t=t: (c, t))
+                            far = t
+                        else:   # '.' is the address of the copy itself
+                            k = rng.choice([0, 2, -2, 4]) if q == "B" else rng.choice([0, 2, 6, -4, 0o100])
+                            if m == "sob":
+                                k = rng.choice([0, 2, -2])
+                            texts.append(at + ("." if k == 0 else (".+%s" % IC.num(k) if k > 0 else ".-%s" % IC.num(-k)))); mk.append(lambda a, c=ctor, k=k: (c, a + k))
+                    elif q == "r":
+                        r = rng.randrange(6); texts.append("(%s)+" % IC.REGNAMES[r]); mk.append(lambda a, r=r: ("OAutoInc", r))
+                    elif q == "#":
+                        v = rng.choice(IC.VAL16[:8]); texts.append("#" + IC.num(v)); mk.append(lambda a, v=v: ("OImm", v))
+                    elif q == "X":
+                        v, r = rng.choice(IC.VAL16[:8]), rng.randrange(7); texts.append("%s(%s)" % (IC.num(v), IC.REGNAMES[r])); mk.append(lambda a, v=v, r=r: ("OIndex", v, r))
+                    elif q == "reg":
+                        r = rng.randrange(8); texts.append(IC.REGNAMES[r]); mk.append(lambda a, r=r: ("OReg", r))
+                    elif q == "ac":
+                        k = rng.randrange(4); texts.append("ac%d" % k); mk.append(lambda a, k=k: ("OAcc", k))
+                line = m + " " + ", ".join(texts)
+                inner = {"plain": line, "nop-before": "nop\n" + line, "even-varying": ".even\n" + line + "\n.byte 1, 2, 3",
+                         "nested": ".repeat %d { %s }" % (m2, line), "nested-nop": "nop\n.repeat %d { %s }" % (m2, line)}[body]
+                src = ([".link " + IC.octnum(base)] if link else []) + (["far = " + IC.octnum(far)] if "far" in line else []) + \
+                      ["out1: .blkb " + IC.num(p), ".repeat %d {" % n, inner, "}", ".even", "out2: .blkb 2"]
+                src = "\n".join(src) + "\n"
+                for j, off in enumerate(offs):
+                    addr = base + off
+                    forms = [IC.Form(f(addr), t, key="rep:%s:%s" % (body, t)) for f, t in zip(mk, texts)]
+                    c = SlicedCase(m, forms, addr)
+                    c.kind = "repeat-addr:%s:n%d:copy%d" % (body, n, j)
+                    c.off, c.ilen, c.total = off, ilen, total
+                    c.src = src
+                    cases.append(c)
+    return cases
+
+
 
 def judge_cases(rep, cases, what):
     terms = [c.term() for c in cases]
@@ -347,7 +458,7 @@ def explore(rep, br, tier, seed):
     # (2) end to end
     cases = build_cases(intro, rng, tier)
     main_n = len(cases)
-    cases += near_miss_cases(intro, rng, tier) + repeat_cases(intro, rng, tier)
+    cases += near_miss_cases(intro, rng, tier) + repeat_cases(intro, rng, tier) + repeat_addr_cases(intro, rng, tier)
     IC.run_cases(cases)
     rep.count("e2e:near-miss-names", sum(1 for c in cases[main_n:] if c.kind.startswith("near")))
     rep.count("e2e:repeat-wrapped", sum(1 for c in cases[main_n:] if c.kind.startswith("repeat")))
@@ -375,7 +486,7 @@ def search(rep, br, tier, seed):
     try:
         intro = IC.introspect()
         cases = build_cases(intro, rng, "quick", big=(tier != "thorough"))
-        cases += near_miss_cases(intro, rng, "thorough") + repeat_cases(intro, rng, "thorough")
+        cases += near_miss_cases(intro, rng, "thorough") + repeat_cases(intro, rng, "thorough") + repeat_addr_cases(intro, rng, "thorough")
         IC.run_cases(cases)
         rep.add_eval(len(cases))
         n = judge_cases(rep, cases, "search")
